@@ -5,6 +5,7 @@ package main
 
 import (
 	"fmt"
+	"go/token"
 	"go/types"
 	"sort"
 	"strings"
@@ -355,13 +356,30 @@ func (x *Exec) callFuncValue(fr *Frame, st *State, ins ssa.Instruction, cc *ssa.
 	if p, ok := cc.Value.(*ssa.Parameter); ok {
 		name = p.Name()
 	}
-	if fv.Clo != nil {
+	if ld, ok := cc.Value.(*ssa.UnOp); ok && ld.Op == token.MUL {
+		if fa, ok := ld.X.(*ssa.FieldAddr); ok {
+			// a function stored in a struct field is named by the field (stable key for monitors and `attr opaque`)
+			name = fa.X.Type().Underlying().(*types.Pointer).Elem().Underlying().(*types.Struct).Field(fa.Field).Name()
+		}
+	}
+	opaque := false
+	if con := x.contractForFrame(fr.top); con != nil && con.Attrs["opaque"] == name {
+		opaque = true
+	}
+	if fv.Clo != nil && !opaque {
 		return x.callFunc(fr, st, ins, fv.Clo.Fn, args, fv.Clo, site)
 	}
 	// a parameter / unknown function value
 	x.monitors(fr, st, name, name, "before", args, Value{}, sig, site)
 	var res Value
-	if uf := x.fnTypeUF(cc.Value.Type()); uf != "" && sig.Results().Len() == 1 {
+	if opaque {
+		// `attr opaque <field>`: the function stored in that field is not interpreted here
+		x.assumed["A-callback: the function stored in field "+name+" called by "+funcKey(fr.top.fn)+" is not interpreted: it returns unconstrained values and does not write memory that function reads or writes"] = true
+		old := st.alloc
+		st.alloc = Fresh("alloc_cb", "Int")
+		x.assume(st, Ge(st.alloc, old))
+		res = x.resultValue(st, "cb_"+name, sig.Results())
+	} else if uf := x.fnTypeUF(cc.Value.Type()); uf != "" && sig.Results().Len() == 1 {
 		x.assumed["A-options: values of the functional type "+types.TypeString(cc.Value.Type(), nil)+" are side-effect free functions of their arguments (the package's own literals are; their meaning is derived from their bodies)"] = true
 		ts := []*Term{fv.T}
 		for _, a := range args {
@@ -369,7 +387,7 @@ func (x *Exec) callFuncValue(fr *Frame, st *State, ins ssa.Instruction, cc *ssa.
 		}
 		res = Value{T: UF(uf, sortOf(sig.Results().At(0).Type()), ts...)}
 	} else if cands := x.fnCandidates(cc.Value.Type()); len(cands) > 0 {
-		res = x.dispatchCandidates(fr, st, ins, cands, args, sig, site, cc.Value.Type())
+		res = x.dispatchCandidates(fr, st, ins, fv, cands, args, sig, site, cc.Value.Type())
 	} else {
 		con := x.contractForFrame(fr.top)
 		mode := ""
@@ -511,35 +529,52 @@ func (x *Exec) fnCandidates(t types.Type) []*ssa.Function {
 
 var candCache = map[string][]*ssa.Function{}
 
-func (x *Exec) dispatchCandidates(fr *Frame, st *State, ins ssa.Instruction, cands []*ssa.Function, args []Value, sig *types.Signature, site string, t types.Type) Value {
+func (x *Exec) dispatchCandidates(fr *Frame, st *State, ins ssa.Instruction, fv Value, cands []*ssa.Function, args []Value, sig *types.Signature, site string, t types.Type) Value {
 	var names []string
 	for _, c := range cands {
 		names = append(names, funcKey(c))
 	}
 	x.assumed[fmt.Sprintf("A-options: a value of type %s is one of the repository's own literals %v (with arbitrary captured values)", t, names)] = true
-	which := Fresh("which", "Int")
 	var sts []*State
 	var vals []Value
 	base := st.clone()
+	fid := Fresh("which", "Int")
+	var fenv *Term
+	if fv.T != nil {
+		fid, fenv = Acc(fv.T, 0), Acc(fv.T, 1)
+	}
 	for i, c := range cands {
 		cst := base.clone()
-		if i < len(cands)-1 {
-			cst.pc = And(base.pc, Eq(which, Int(int64(i))))
+		if i < len(cands)-1 || fv.T != nil {
+			cst.pc = And(base.pc, Eq(fid, Int(int64(x.fnID(c)))))
 		} else {
 			var ne []*Term
 			for j := 0; j < i; j++ {
-				ne = append(ne, Not(Eq(which, Int(int64(j)))))
+				ne = append(ne, Not(Eq(fid, Int(int64(x.fnID(cands[j]))))))
 			}
 			cst.pc = And(base.pc, And(ne...))
 		}
+		if cst.pc == False {
+			continue
+		}
 		clo := &Closure{Fn: c}
-		for _, fv := range c.FreeVars {
-			bv := x.freshVal(cst, "cap_"+fv.Name(), fv.Type())
-			if _, isPtr := fv.Type().Underlying().(*types.Pointer); isPtr {
-				// a captured variable is a live, allocated cell
-				x.assume(cst, Gt(bv.T, Int(0)))
+		if strings.HasSuffix(c.Name(), "$bound") && len(c.FreeVars) == 1 && fenv != nil {
+			// a method value: the environment is the receiver
+			rt := c.FreeVars[0].Type()
+			if sortOf(rt) == "Int" {
+				clo.Binds = []Value{{T: fenv}}
+			} else {
+				clo.Binds = []Value{{T: UF("un"+boxName(rt), sortOf(rt), fenv)}}
 			}
-			clo.Binds = append(clo.Binds, bv)
+		} else {
+			for _, fvv := range c.FreeVars {
+				bv := x.freshVal(cst, "cap_"+fvv.Name(), fvv.Type())
+				if _, isPtr := fvv.Type().Underlying().(*types.Pointer); isPtr {
+					// a captured variable is a live, allocated cell
+					x.assume(cst, Gt(bv.T, Int(0)))
+				}
+				clo.Binds = append(clo.Binds, bv)
+			}
 		}
 		v := x.callFunc(fr, cst, ins, c, args, clo, site)
 		if cst.pc != False {
@@ -1515,6 +1550,7 @@ func (x *Exec) runGhost(st *State, env *SpecEnv, stmts []*GhostStmt, what, site 
 			x.oblige(st, "mon", lab, site, env.boolean(s.Expr), what)
 			x.assumePC(st, env.boolean(s.Expr))
 		case "assume":
+			x.assumed[fmt.Sprintf("assume in the contract of %s (%s, line %d): %s", x.curKey, what, s.Line, s.Expr.String())] = true
 			x.assumePC(st, env.boolean(s.Expr))
 		case "assign":
 			v := env.eval(s.Expr)
